@@ -292,11 +292,11 @@ def _timeout_then_retry_wf(w: int, d: int):
     return TR(timeout=None)
 
 
-@obligation(quick=240, thorough=600, partitions_quick=[f"it == {i}" for i in (1, 2, 3)], partitions_thorough=[f"it == {i} and d == {d}" for i in (1, 2, 3, 4) for d in (1, 2, 3)],
+@obligation(quick=240, thorough=600, partitions_quick=[f"it == {i}" for i in (1, 2, 3)], partitions_thorough=[f"it == {i} and d == {d}" for i in (1, 2, 3, 4) for d in (1, 2, 3, 4)],
             what="a run that was announced idle (parked in a wait) leaves idleness BY ITSELF: the waiter times out in memory (w <= idle_timeout), the "
                  "woken step fails and its retry waits out a delay d that carries past the idle timeout: the release timer of the earlier idle "
                  "announcement must not abort the run while that retry is pending; the step is retried and the run completes",
-            bounds={"w": "1..idle_timeout", "d": "1..3", "idle_timeout": "1..4"})
+            bounds={"w": "1..idle_timeout", "d": "1..3 (thorough 4)", "idle_timeout": "1..3 (thorough 4)"})
 def ob_timeout_then_retry_vs_idle(w: int, d: int, it: int) -> bool:
     """
     pre: 1 <= it <= ITMAX and 1 <= w <= it and 1 <= d <= DMAX + 1
